@@ -16,6 +16,8 @@ SPC = 32
 
 
 def pattern(slot, j):
+    if slot >= 1000:
+        return (slot % 250) + 1  # "flat" payload: a compressed cluster of it takes a few dozen bytes
     return ((37 * (slot + 1) + j + 3 * (j >> 9) + 5 * (j >> 16)) & 0xFF) or 1
 
 
@@ -100,12 +102,14 @@ def build_all(spec):
                 raw = slot_bytes(c[1], 0, cs)
                 co = zlib.compressobj(6, zlib.DEFLATED, -12)
                 blob = co.compress(raw) + co.flush()
-                coff = comp_cursor + spec.get("cmisalign", 0)
+                coff = comp_cursor + (spec.get("cmisalign", 0) if not (spec.get("cpack") and cpos) else 0)
                 img.put(coff, blob)
+                cpos[g] = coff
                 nsec = ((coff & 511) + len(blob) + 511) // 512
                 x = 62 - (cb - 8)
                 ent = (1 << 62) | ((nsec - 1) << x) | coff
-                comp_cursor = ((coff + len(blob) + 511) // 512) * 512 + 512
+                # "cpack": compressed clusters back to back at byte granularity, as qemu-img convert -c writes them (several may share a 512-byte sector)
+                comp_cursor = coff + len(blob) if spec.get("cpack") else ((coff + len(blob) + 511) // 512) * 512 + 512
             elif c[0] == "x":
                 subs = c[2]
                 if c[1] is not None:
@@ -236,7 +240,7 @@ def gen_specs(rng: random.Random, n, hints=None):
                 elif r < 0.3:
                     clusters.append("z")
                 elif r < 0.45:
-                    clusters.append(["c", slots[g]])
+                    clusters.append(["c", slots[g] + (1000 if rng.random() < 0.5 else 0)])
                 elif stretch:
                     m_ = rng.choice([SPC, SPC, 20, 28, 31, 12, 1])
                     tail = rng.choice("uz")
@@ -247,13 +251,16 @@ def gen_specs(rng: random.Random, n, hints=None):
                     has_host = any(s == "a" for s in subs) or rng.random() < 0.5
                     clusters.append(["x", slots[g] if has_host else None, subs])
             else:
-                clusters.append(None if r < 0.2 else "z" if r < 0.3 else ["za", slots[g]] if r < 0.4 else ["c", slots[g]] if r < 0.55 else ["n", slots[g]])
+                clusters.append(None if r < 0.2 else "z" if r < 0.3 else ["za", slots[g]] if r < 0.4 else ["c", slots[g] + (1000 if rng.random() < 0.5 else 0)] if r < 0.55 else ["n", slots[g]])
+        if not ext and rng.random() < 0.2:
+            # "convert -c" family: (almost) every cluster compressed, tiny and ordinary ones mixed, packed back to back
+            clusters = [["c", slots[g] + (1000 if rng.random() < 0.6 else 0)] if rng.random() < 0.85 else clusters[g] for g in range(ncl)]
         version = 3 if (ext or rng.random() < 0.7) else 2
         if version == 2:
             clusters = [c if not (c == "z" or (isinstance(c, list) and c[0] == "za")) else None for c in clusters]
         sp = {"cb": cb, "version": version, "ext": ext, "nclusters": ncl, "size": max(512, size), "clusters": clusters,
               "backing": rng.choice([None, None, size, max(1, size // 2), size + 4096]), "datafile": version == 3 and rng.random() < 0.2,
-              "data_gap": rng.choice([0, 0, 1]), "cmisalign": rng.choice([0, 0, 17, 300]), "l2_reverse": rng.random() < 0.3}
+              "data_gap": rng.choice([0, 0, 1]), "cmisalign": rng.choice([0, 0, 17, 300]), "cpack": rng.random() < 0.5, "l2_reverse": rng.random() < 0.3}
         nl1 = (ncl + per_l2 - 1) // per_l2
         sp["l1_size"] = nl1 + rng.choice([0, 0, 1])
         if nl1 > 1 and rng.random() < 0.5:
